@@ -19,7 +19,9 @@ THEORIES = ['theories/L5Cover/BoxesProofs.vo',
             'theories/L5Cover/FloorLitProofs.vo',
             'theories/L5Cover/MinCoverRefuted.vo',
             'theories/L5Cover/CyclicCoreOpt.vo',
-            'theories/L5Cover/MinCoverFull.vo']
+            'theories/L5Cover/MinCoverFull.vo',
+            'theories/L5Cover/CyclicCoreTotal.vo',
+            'theories/L5Cover/MinCoverTotal.vo']
 
 HEADER = cq.HEADER + 'From Omega Require Import L5Cover.MinCover.\n'
 
